@@ -50,6 +50,17 @@ static std::vector<Job> make_jobs(vrt::Rng &r, int n) {
       j.o = Opt(); j.o.method = 1; j.o.submethod = -1; j.o.es = j.o.ds = r.range(0, 4); j.o.expert = true; j.o.qbits.assign(j.g.pc->num_attributes(), 0);
       j.o.no_predictive = r.coin();
     }
+    else if (r.coin(1, 5)) {
+      // a small grid with quantised float positions AND quantised float normals through Edgebreaker at speeds 0..3: the geometric normal predictor,
+      // the tex-coord predictor's sibling, runs in encoder and decoder (per-corner data of a neighbour face is looked up for every value)
+      const int side = r.range(4, 9);
+      j.g = grid_mesh(side);
+      const int np = side * side;
+      AttDesc dn{GeometryAttribute::NORMAL, DT_FLOAT32, 3, false, true, np};
+      const int in = add_attribute(j.g.pc.get(), dn, np);
+      for (int v = 0; v < np; ++v) { float nn[3] = {(float)(r.unit() - 0.5), (float)(r.unit() - 0.5), 1.f}; const float l = std::sqrt(nn[0] * nn[0] + nn[1] * nn[1] + 1.f); for (float &q : nn) q /= l; j.g.pc->attribute(in)->SetAttributeValue(AttributeValueIndex(v), nn); }
+      j.o = Opt(); j.o.method = 1; j.o.es = j.o.ds = r.range(0, 3); j.o.expert = r.coin(); j.o.qbits = {r.range(8, 14), r.range(6, 12)};
+    }
     if (r.coin(1, 4)) {
       // nested metadata on the geometry (three levels)
       std::unique_ptr<GeometryMetadata> md(new GeometryMetadata());
